@@ -37,6 +37,10 @@ type vfC09Case struct {
 	Writers [][]vfC09Op
 	Procs   int
 	ClassB  bool // writers load fresh epochs and close the old ones (ReplaceOrAddEpoch / RemoveEpochByConfigFilepath)
+	// OneStable: 0 = both stable epochs loaded (plus one volatile at the start); 1 / 2 = only the first / second stable
+	// epoch is loaded at the start, so that the epoch count moves between 1 and more while the writers run
+	OneStable int
+	Repeat    int // every reader operation is issued this many times in a row (0 = once)
 }
 
 type vfC09World struct {
@@ -243,6 +247,13 @@ func (w *vfC09World) writer(m *MultiEpoch, op vfC09Op, classB bool, cache func()
 		m.AddEpoch(v.Num, w.objs[v.Num]) // "already exists" is a legal outcome
 	case "remove":
 		m.RemoveEpoch(v.Num)
+	case "toggle":
+		// an epoch appearing and disappearing many times (start-up loading, --watch create/remove)
+		for k := 0; k < 200; k++ {
+			m.AddEpoch(v.Num, w.objs[v.Num])
+			runtime.Gosched()
+			m.RemoveEpoch(v.Num)
+		}
 	case "replace":
 		m.ReplaceEpoch(v.Num, w.objs[v.Num])
 	case "replaceOrAdd":
@@ -266,15 +277,21 @@ type vfC09Stats struct {
 	ops     int
 }
 
-func vfC09eval(w *vfC09World, c *vfC09Case, st *vfC09Stats) error {
+func vfC09eval(w0 *vfC09World, c *vfC09Case, st *vfC09Stats) error {
 	if c.Procs > 0 {
 		defer runtime.GOMAXPROCS(runtime.GOMAXPROCS(c.Procs))
+	}
+	w := w0
+	if c.OneStable >= 1 && c.OneStable <= len(w0.stable) {
+		view := *w0
+		view.stable = w0.stable[c.OneStable-1 : c.OneStable]
+		w = &view
 	}
 	m := NewMultiEpoch(&Options{EpochSearchConcurrency: 2})
 	for _, ep := range w.stable {
 		m.AddEpoch(ep.Num, w.objs[ep.Num])
 	}
-	if !c.ClassB {
+	if !c.ClassB && c.OneStable == 0 {
 		m.AddEpoch(w.volatile[0].Num, w.objs[w.volatile[0].Num])
 	}
 	h := newMultiEpochHandler(m, nil)
@@ -294,6 +311,12 @@ func vfC09eval(w *vfC09World, c *vfC09Case, st *vfC09Stats) error {
 			<-start
 			for _, op := range ops {
 				wa := writersActive.Load()
+				for k := 1; k < c.Repeat; k++ {
+					if err := w.reader(m, h, op, c.ClassB); err != nil {
+						errCh <- err
+						return
+					}
+				}
 				if err := w.reader(m, h, op, c.ClassB); err != nil {
 					errCh <- err
 					return
@@ -390,9 +413,19 @@ func vfC09gen(rt *rapid.T, maxOps int) *vfC09Case {
 	wk := []string{"add", "remove", "replace", "add", "remove"}
 	if c.ClassB {
 		wk = []string{"replaceOrAdd", "removeByConfig", "replaceOrAdd"}
+	} else if rapid.Bool().Draw(rt, "oneStable") {
+		// one stable epoch, volatile epochs toggling around it, readers repeating their queries
+		c.OneStable = rapid.IntRange(1, 2).Draw(rt, "whichStable")
+		c.Repeat = rapid.SampledFrom([]int{10, 40, 100}).Draw(rt, "repeat")
+		wk = []string{"add", "remove", "toggle", "toggle", "replace"}
+	}
+	rk := vfC09ReaderKinds
+	if c.OneStable > 0 {
+		// the signature search is the query whose routing depends on how many epochs are loaded
+		rk = append(append([]string{}, rk...), "getTransaction", "getTransaction", "getTransaction", "getTransaction", "getBlock", "grpcGetBlock")
 	}
 	for i := 0; i < nr; i++ {
-		c.Readers = append(c.Readers, rapid.SliceOfN(opGen(vfC09ReaderKinds), 5, maxOps).Draw(rt, "readerOps"))
+		c.Readers = append(c.Readers, rapid.SliceOfN(opGen(rk), 5, maxOps).Draw(rt, "readerOps"))
 	}
 	for i := 0; i < nw; i++ {
 		n := maxOps * 4
@@ -411,7 +444,7 @@ func TestVfC09Stress(t *testing.T) {
 	if err != nil {
 		t.Fatalf("harness: %v", err)
 	}
-	run.Require("class:A", "class:B", "overlap")
+	run.Require("class:A", "class:B", "overlap", "one-stable-epoch")
 	lastInput := filepath.Join(os.Getenv("VERIF_TMP"), "last-input.json")
 	os.MkdirAll(filepath.Dir(lastInput), 0o755)
 	for _, p := range vfh.ReplayFiles("C09", "stress") {
@@ -442,6 +475,9 @@ func TestVfC09Stress(t *testing.T) {
 		cls := []string{"class:A"}
 		if c.ClassB {
 			cls = []string{"class:B"}
+		}
+		if c.OneStable > 0 {
+			cls = append(cls, "one-stable-epoch")
 		}
 		if st.overlap {
 			cls = append(cls, "overlap")
